@@ -230,6 +230,8 @@ pub fn matrix() -> Vec<MatrixCase> {
         add("is_not_defined", format!("[{{{{ {u} is not defined }}}}]"), NEVER, "[True]");
         add("default", format!("[{{{{ {u}|default('d') }}}}]"), NEVER, "[d]");
         add("default_alias", format!("[{{{{ {u}|d('d') }}}}]"), NEVER, "[d]");
+        add("default_boolean_positional", format!("[{{{{ {u}|default('d', true) }}}}]"), NEVER, "[d]");
+        add("default_boolean_false", format!("[{{{{ {u}|default('d', false) }}}}]"), NEVER, "[d]");
         add("default_noarg", format!("[{{{{ {u}|default }}}}]"), NEVER, "[]");
         add("default_in_if", format!("[{{% if {u} is defined %}}t{{% else %}}f{{% endif %}}]"), NEVER, "[f]");
         add("default_as_arg", format!("[{{{{ 'x'|default({u}) }}}}]"), NEVER, "[x]");
